@@ -273,6 +273,37 @@ func (fe *FE) Run() {
 		}
 		st.ghosts[g.Name] = v
 	}
+	for gi, g := range fe.C.Guards {
+		ctx.what = "guard"
+		// the guarded thing: a cell (captured variable / pointer), a map or an object reference
+		var ref string
+		if g[0].Op == "id" {
+			if p, ok := ctx.params[g[0].S]; ok && p.Kind == VLoc && len(p.Loc.Idx) > 0 {
+				ref = p.Loc.Idx[0]
+			}
+		}
+		if ref == "" {
+			v := ctx.eval(g[0])
+			switch v.Kind {
+			case VScalar:
+				ref = v.T
+			case VLoc:
+				if len(v.Loc.Idx) > 0 {
+					ref = v.Loc.Idx[0]
+				}
+			}
+		}
+		lv := ctx.eval(g[1])
+		lock, ok := fe.asRef(lv)
+		if ref == "" || !ok {
+			fe.errorf("guard clause %q: cannot resolve", fe.C.GuardSrc[gi])
+			continue
+		}
+		if st.guarded == nil {
+			st.guarded = map[string]string{}
+		}
+		st.guarded[ref] = lock
+	}
 	for _, lw := range fe.C.LoopWrites {
 		ctx.what = "loopwrites"
 		v := ctx.eval(lw)
@@ -881,10 +912,10 @@ func (fe *FE) zeroStruct(st *State, t types.Type, ref string) {
 		fe.store(st, &Loc{Base: fieldBase(t, f.Name()), Idx: []string{ref}, T: f.Type()}, fe.zeroVal(f.Type()))
 	}
 	if isNamed(t, "sync", "Mutex") || isNamed(t, "sync", "RWMutex") {
+		// a new mutex is unlocked (no store: the lock-balance check compares the lockset with the one at entry)
 		arr := fe.heapTerm(st, "G_held", arraySort([]string{SInt}, SBool))
-		n := fe.newConst(st, "G_held", arraySort([]string{SInt}, SBool))
-		st.assume(eq(n, "(store "+arr+" "+ref+" false)"))
-		st.heap["G_held"] = n
+		st.assume("(not (select " + arr + " " + ref + "))")
+		st.assume("(not (select G_held!0 " + ref + "))")
 	}
 	if isNamed(t, "sync", "WaitGroup") {
 		for _, g := range []string{"added", "forked", "waited"} {
